@@ -337,17 +337,26 @@ def _str_names(fn: ast.FunctionDef) -> Set[str]:
     return names
 
 
-def _keyword_operand(e: ast.AST, fn: ast.FunctionDef) -> Optional[List[str]]:
-    """the alphabetic keywords `e` stands for: a constant, or the variable of a loop over a literal list of them"""
+def _keyword_operand(e: ast.AST, fn: ast.FunctionDef, py=None) -> Optional[List[str]]:
+    """the alphabetic keywords `e` stands for: a constant, or the variable of a loop over a constant sequence of them (a
+    literal, or a module-level constant that evaluates to one)"""
     def words(vs):
+        vs = list(vs)
         return vs if vs and all(isinstance(v, str) and len(v) >= 3 and v.replace("_", "").isalpha() for v in vs) else None
     if isinstance(e, ast.Constant):
         return words([e.value])
     if isinstance(e, ast.Name):
         for st in ast.walk(fn):
-            if isinstance(st, (ast.For, ast.comprehension)) and isinstance(st.target, ast.Name) and st.target.id == e.id and \
-                    isinstance(st.iter, (ast.List, ast.Tuple)) and all(isinstance(x, ast.Constant) for x in st.iter.elts):
-                return words([x.value for x in st.iter.elts])
+            if isinstance(st, (ast.For, ast.comprehension)) and isinstance(st.target, ast.Name) and st.target.id == e.id:
+                if isinstance(st.iter, (ast.List, ast.Tuple)) and all(isinstance(x, ast.Constant) for x in st.iter.elts):
+                    return words([x.value for x in st.iter.elts])
+                if py is not None:
+                    try:
+                        v = py.eval_const(st.iter, py.module_env(py.module_of(fn)))
+                    except Exception:
+                        v = None
+                    if isinstance(v, (list, tuple, set, frozenset)):
+                        return words(sorted(v) if isinstance(v, (set, frozenset)) else v)
     return None
 
 
@@ -364,7 +373,7 @@ def keyword_substring(ctx, rep, modules: Sequence[str] = ("sourceform", "reader"
         for c in ast.walk(fn):
             if not (isinstance(c, ast.Compare) and len(c.ops) == 1 and isinstance(c.ops[0], (ast.In, ast.NotIn))):
                 continue
-            kws = _keyword_operand(c.left, fn)
+            kws = _keyword_operand(c.left, fn, py)
             if not kws:
                 continue
             if strs is None:
@@ -480,3 +489,72 @@ def double_suffix_strip(ctx, rep, modules: Optional[Sequence[str]] = None, label
     rep.ob(f"{label}no with_suffix() on a name whose suffix was already removed", True,
            f"{inspected} functions inspected, {n} with_suffix() call(s)", "ford/")
     return n + 1
+
+
+# ------------------------------------------------------------------ a shallow copy shares the lists of the original
+def _inplace_mutated_list_attrs(py, cls: str) -> Dict[str, ast.AST]:
+    """list attributes of `cls` that some method of the class (or of a base) changes in place (element store, append, ...)"""
+    out: Dict[str, ast.AST] = {}
+    for c in py.mro(cls):
+        ci = py.classes.get(c)
+        if ci is None:
+            continue
+        for mname, m in ci.methods.items():
+            if mname in ("__init__", "_initialize"):      # construction is over before the object can be copied
+                continue
+            for x in ast.walk(m):
+                if isinstance(x, ast.Subscript) and isinstance(x.ctx, (ast.Store, ast.Del)) and isinstance(x.value, ast.Attribute) \
+                        and isinstance(x.value.value, ast.Name) and x.value.value.id == "self":
+                    out.setdefault(x.value.attr, x)
+                if isinstance(x, ast.Call) and isinstance(x.func, ast.Attribute) and x.func.attr in MUTATORS and \
+                        isinstance(x.func.value, ast.Attribute) and isinstance(x.func.value.value, ast.Name) and x.func.value.value.id == "self":
+                    out.setdefault(x.func.value.attr, x)
+    return {a: n for a, n in out.items() if is_list_attr(py, cls, a)}
+
+
+_SHALLOW_EXAMPLE = """
+class K:
+    def __init__(self):
+        self.items = []
+    def fill(self):
+        for i in range(3):
+            self.items[i] = i
+class U:
+    def use(self, olds):
+        for o in olds:
+            c = copy.copy(o)
+            c.parent = self
+"""
+
+
+def shallow_copy_sites(fn: ast.AST):
+    """(assignment, copy variable, source expression) for `c = copy.copy(o)` in fn"""
+    return [(st, st.targets[0].id, st.value.args[0]) for st in ast.walk(fn)
+            if isinstance(st, ast.Assign) and len(st.targets) == 1 and isinstance(st.targets[0], ast.Name)
+            and isinstance(st.value, ast.Call) and call_name(st.value) in ("copy.copy", "copy") and len(st.value.args) == 1]
+
+
+def shallow_copy_shares_lists(ctx, rep, elem_class, label: str = ""):
+    """`c = copy.copy(o)` shares o's list attributes.  If a method of o's class changes such a list in place, running it on
+    the copy changes the original as well, unless the copy's attribute is re-bound to a list of its own first.
+    `elem_class(fn, expr)` names the class of the copied object (from the collection it is taken from)."""
+    py = ctx.py
+    if len(shallow_copy_sites(ast.parse(_SHALLOW_EXAMPLE))) != 1:
+        raise AnalysisError("shallow_copy_shares_lists: the matcher fails on its own example")
+    n = 0
+    for mod, fn in py.all_functions():
+        for st, cvar, src in shallow_copy_sites(fn):
+            cls = elem_class(fn, src)
+            if cls is None:
+                continue
+            for attr, mut in sorted(_inplace_mutated_list_attrs(py, cls).items()):
+                rebound = any(isinstance(a, ast.Assign) and a.lineno > st.lineno and any(
+                    isinstance(t, ast.Attribute) and isinstance(t.value, ast.Name) and t.value.id == cvar and t.attr == attr
+                    for t in a.targets) for a in ast.walk(fn))
+                n += 1
+                rep.ob(f"{label}{py.qualname(fn)}: copy of a {cls} gets its own `{attr}`", rebound,
+                       "the list is re-bound on the copy before anything can change it" if rebound else
+                       f"`{ast.unparse(st)}` is a shallow copy: `{cvar}.{attr}` is the very list of the original, and "
+                       f"`{ast.unparse(mut)[:50]}` ({py.qualname(py.enclosing_function(mut))}) changes it in place - what is resolved for the "
+                       f"copy overwrites the original's entries", py.nloc(st), nontrivial=not rebound)
+    return n
